@@ -79,6 +79,37 @@ CHECKS["C07"] = dict(
     technique="inductive-step bounded symbolic execution of the real API operations + z3 state-equality obligations vs fresh construction; replay on real code",
     ref="5/C07")
 
+CHECKS["C01"] = dict(
+    text="Partial: (H2) the real Newton loop with an uninterpreted residual, unrolled to <=3 iterations: a normal return implies the last checked iterate met the tolerance and the "
+         "reported circulation is the one evaluated last; the iteration cap raises SolverNotConvergedError; (H3) the error-policy table of solve_forces/_handle_error; (H4) a failing fsolve "
+         "(symbolic termination flag) always falls back to the nonlinear solver; (H1, when present) the residual of the real code equals a reference jointed-horseshoe lifting-line equation. "
+         "Convergence within the default iteration limit is outside.",
+    note="FlowStub/ResidStub/linsolve/fsolve stubs; 'within tolerance' is claimed for the last checked iterate (the source applies one more relaxed Newton step); liveness outside.",
+    technique="bounded symbolic execution (loop unrolling) of the real solver code with contract stubs + z3; fault-injection replay for the scipy path",
+    ref="5/C01")
+CHECKS["C03"] = dict(
+    text="(L0) quaternion helper lemmas on the real functions for all real inputs (inverse pair, |q|^4 law, length, composition == quat_mult, orthogonality, det +1, unit Euler quaternion, "
+         "Euler round trip at the level of the inverse-trig arguments); (L1) state parsing of orientation/velocity; (L2/L3) twin run of the whole numeric pipeline (assembly, flow properties, "
+         "residual for arbitrary circulation, load integration, distributions) at the exact identity pose vs an arbitrary unit quaternion and position: rigid images of all Earth-frame arrays, "
+         "invariant residual and body-frame results, with cut points and event-ordered atom alignment.",
+    note="Uniform atmosphere; no impingement (denominators assumed > 1e-13); wind/stability frames via C02; analyses inherit via C08-C11 harnesses (symbolic pose); family G, N<=7.",
+    technique="relational bounded symbolic execution (twin runs with cut points and atom alignment) + z3 polynomial identities; replay on real code",
+    ref="5/C03")
+CHECKS["C13"] = dict(
+    text="(Hperm) twin run of the numeric pipeline on scenes with the same aircraft added in different orders (all states symbolic): per-aircraft blocks, residual rows and every result equal up "
+         "to the block permutation; (Hdec) with the cross-aircraft influence blocks set to exact zero the rows and results of each aircraft equal those of the scene holding it alone; "
+         "(Haddrem) add then remove restores exactly the stored state; (Hsel) _get_aircraft and the analyses report exactly the named aircraft.",
+    note="The far-field limit itself (asymptotic) is outside; one-segment aircraft, N=2 each, <=3 aircraft; no impingement assumed.",
+    technique="relational bounded symbolic execution (order twin with cut points; decoupling lemma) + z3; replay on real code",
+    ref="5/C13")
+CHECKS["C14"] = dict(
+    text="Reduced claim: (Hpath) the real solve_forces dispatch for every solver type x initial guess after an earlier solve at a different, directly modified state: every residual "
+         "evaluation, linear system and the integration use flow properties computed for the current state and the documented dispatch is followed; (Hlin) the real _solve_linear assembles "
+         "exactly the documented linearised system for arbitrary symbolic flow arrays. Equality of converged roots across paths and the asymptotic clause are outside.",
+    note="FlowStub/ResidStub; loop unrolled twice; uniqueness of the root not decided.",
+    technique="bounded symbolic execution of the real solver dispatch with recording stubs + z3; replay on real code",
+    ref="5/C14")
+
 NOT_APPLICABLE = {
     "C18": "classical lifting-line limits: a convergence statement about the N>=20 discrete solution (value and rate under grid refinement); no bounded SMT encoding of the 40x40 transcendental system is within reach and the small N the engine handles is where the claim is not expected to hold",
 }
